@@ -99,6 +99,11 @@ def run(ctx):
       loss, grad = est._loss_grad_lbfgs(L.ravel(), X, mask, 1.0)
       terms.append("(c10_nca %s %s %s %s)" % (gmat(L), gmat(X), gzlist(y), fhex(loss)) if cscale == 1 else "true")
       recs.append(dict(kind=kind, L=L, X=X, y=y, loss=float(loss), grad=np.array(grad).reshape(L.shape), cscale=cscale))
+      if cscale == 1 and len(X) <= 15:
+        # the gradient itself against the Coq model the derivative theorem is about (Model/NCAGrad.v)
+        terms.append("(c10_nca_grad %d%%nat %d%%nat %s %s %s %s %s)" % (k, d, gmat(L), gmat(X), gzlist(y), fhex(loss),
+                                                              gmat(np.array(grad).reshape(L.shape))))
+        recs.append(dict(kind='nca_grad', L=L, X=X, y=y, loss=float(loss), grad=np.array(grad).reshape(L.shape), cscale=cscale))
     elif kind == 'mlkr':
       est = MLKR()
       est.n_iter_ = 1
@@ -127,11 +132,28 @@ def run(ctx):
     ctx.seen((kind, L.tolist(), X.tolist()), True)
     ctx.hist('kind', kind)
     ctx.hist('rank', 'k<d' if k < d else 'k=d')
+  # the gradient handed to the optimiser against the Coq model that the derivative theorem C10_nca_gradient is about
+  for i in range(20 if thorough else 6):
+    d = int(rng.integers(2, 5))
+    ncls = int(rng.integers(2, 4))
+    sizes = [int(rng.integers(2, 5)) for _ in range(ncls)]
+    data = fits.make_data(rng, d=d, n_classes=ncls, n_per_class=sizes, sep=1.0)
+    X = fits.grid(data['X'] * 0.5, 8)
+    y = fits.encode_labels(rng, data)['y'] if rng.random() < 0.5 else data['y']
+    k = int(rng.integers(1, d + 1))
+    L = fits.grid(rng.standard_normal((k, d)) * 0.7, 8)
+    est = NCA()
+    est.n_iter_ = 1
+    loss, grad = est._loss_grad_lbfgs(L.ravel(), X, y[:, None] == y[None, :], 1.0)
+    terms.append("(c10_nca_grad %d%%nat %d%%nat %s %s %s %s %s)" % (k, d, gmat(L), gmat(X), gzlist(y), fhex(loss),
+                                                          gmat(np.array(grad).reshape(L.shape))))
+    recs.append(dict(kind='nca_grad', L=L, X=X, y=y, loss=float(loss), grad=np.array(grad).reshape(L.shape), cscale=1.0))
+    ctx.seen(('nca_grad', L.tolist(), X.tolist()), True)
   ctx.sample(dict(kind=recs[0]['kind'], L=recs[0]['L'].tolist(), X=recs[0]['X'].tolist()[:3], impl_loss=recs[0]['loss']))
 
   def falsify(rec):
     L, X, y = rec['L'], rec['X'], rec['y']
-    if rec['kind'] == 'nca':
+    if rec['kind'] in ('nca', 'nca_grad'):
       f = lambda A: nca_doc(A, X, y)
     elif rec['kind'] == 'mlkr':
       f = lambda A: mlkr_doc(A, X, y)
@@ -159,7 +181,7 @@ def run(ctx):
   if ok:
     res = ctx.run_cases('c10', HEADER, terms, per_file=5, timeout=1200)
     for r, rec in zip(res, recs):
-      ctx.count('correspondence_value', 1)
+      ctx.count('correspondence_gradient' if rec['kind'] == 'nca_grad' else 'correspondence_value', 1)
       if r is False:
         why = falsify(rec)
         if why:
@@ -167,7 +189,8 @@ def run(ctx):
           ctx.fail_input('objective', rec['kind'] + ': ' + why, dict(kind=rec['kind'], L=rec['L'].tolist(), X=rec['X'].tolist(), y=np.asarray(rec['y']).tolist()))
         else:
           ctx.count('correspondence_value', 0, failures=1)
-          ctx.break_tie('correspondence', 'c10_' + rec['kind'], "Coq evaluation of the documented objective differs from the code's value on L=%s" % rec['L'].tolist())
+          ctx.break_tie('correspondence', 'c10_' + rec['kind'], "Coq evaluation of the documented objective%s differs from the code's value on L=%s" % (
+              ' / of the gradient model' if rec['kind'] == 'nca_grad' else '', rec['L'].tolist()))
   for rec in recs:
     if found:
       break
